@@ -49,3 +49,37 @@ ob('C16.enc.u128', ['C16'], 'bit_encoding/c16', 'c16_encode_u128', functions=[BE
    sym='1..=63 bases in either case', oracle='reference packing; last-nucleotide identity', bounds='all lengths <= 63', timeout=900)
 ob('C16.codec', ['C16', 'C02'], 'bit_encoding/c16', 'c16_base_codec', functions=[BE + 'encode_base', BE + 'decode_base', BE + 'rc_base', BE + 'valid_base'], sym='byte (256)',
    oracle='2-bit code case-insensitive, decode(encode)=upper-case base, rc complements, N/n invalid', bounds='complete domain', timeout=300)
+
+SK = 'src/ska_dict/split_kmer.rs::SplitKmer::'
+WINF = [SK + f for f in ('new', 'build', 'roll_fwd', 'update_rc', 'get_curr_kmer', 'get_next_kmer', 'get_middle_pos')]
+WIN_ORACLE = 'independent specification: every start s with s+k<=len and no N in the window, in increasing s: canonical packed split k-mer, middle base, strand flag, middle position; no missing and no extra window'
+# ------------------------------------------------------------------ C01.win
+for (nm, ty, k, L, tier, tmo) in [('u64.k5', 'u64', 5, 8, 'quick', 900), ('u64.k7', 'u64', 7, 10, 'quick', 1200), ('u64.k9', 'u64', 9, 12, 'thorough', 3600), ('u64.k5l11', 'u64', 5, 11, 'thorough', 3600),
+                                  ('u128.k5', 'u128', 5, 8, 'thorough', 1800), ('u128.k7', 'u128', 7, 10, 'thorough', 2400)]:
+    ob('C01.win.' + nm, ['C01', 'C16'] if nm == 'u64.k5' else ['C01'], 'split_kmer/win', 'win_%s_k%d_l%d' % (ty, k, L), tier=tier, functions=WINF, inst=ty, needs_parts=['split_kmer/common'],
+       sym='record bytes over {A,C,G,T,N,a,c,g,t,n}, record length 0..=%d, strand mode' % L, oracle=WIN_ORACLE, bounds='k=%d, record length <= %d' % (k, L), timeout=tmo, mem_gb=10)
+
+# ------------------------------------------------------------------ C16.roll / C01.pack / C02.strand / C02.case
+ROLLF = [SK + f for f in ('new', 'build', 'roll_fwd', 'update_rc', 'get_curr_kmer', 'get_middle_pos')] + [BE + 'UInt::rev_comp', BE + 'UInt::generate_masks']
+for (nm, fn, inst, kr, tier, tmo) in [('u64', 'roll_u64_all_k', 'u64', 'all odd k in 5..=31', 'quick', 1500),
+                                      ('u128.lo', 'roll_u128_k_le_31', 'u128', 'all odd k in 5..=31', 'thorough', 3600),
+                                      ('u128.hi', 'roll_u128_k_33_63', 'u128', 'all odd k in 33..=63', 'thorough', 7200)]:
+    ob('C16.roll.' + nm, ['C16', 'C01'], 'split_kmer/roll', fn, tier=tier, functions=ROLLF, inst=inst, needs_parts=['split_kmer/common'],
+       sym='k, k+2 valid bases in either case, strand mode', oracle='roll_fwd(new(w)) == new(shift(w)) on all private fields; new(w) == specification packing; canonical choice by <',
+       bounds=kr + ', window of k+2 bases', timeout=tmo, mem_gb=16)
+STRF = [SK + f for f in ('new', 'build', 'update_rc', 'get_curr_kmer', 'self_palindrome')]
+for (nm, fn, inst, kr, tier, tmo) in [('u64', 'strand_u64_all_k', 'u64', 'all odd k in 5..=31', 'quick', 1500),
+                                      ('u128.lo', 'strand_u128_k_le_31', 'u128', 'all odd k in 5..=31', 'thorough', 3600),
+                                      ('u128.hi', 'strand_u128_k_33_63', 'u128', 'all odd k in 33..=63', 'thorough', 7200)]:
+    ob('C02.strand.' + nm, ['C02', 'C01'], 'split_kmer/roll', fn, tier=tier, functions=STRF, inst=inst, needs_parts=['split_kmer/common'],
+       sym='k, window of k valid bases', oracle='new(w) and new(revcomp(w)) give the same k-mer and middle base; palindrome flag iff arms equal their reverse complement; forward orientation then',
+       bounds=kr, timeout=tmo, mem_gb=16)
+ob('C02.case', ['C02'], 'split_kmer/roll', 'case_mask_u64_all_k', functions=STRF, inst='u64', needs_parts=['split_kmer/common'], sym='k, window, arbitrary case mask, strand mode',
+   oracle='iterator state identical for any case mask', bounds='all odd k in 5..=31', timeout=1200, mem_gb=12)
+# ------------------------------------------------------------------ C12 quality rules
+ob('C12.q', ['C12'], 'split_kmer/qual', 'qual_threshold', functions=[SK + 'valid_qual'], needs_parts=['split_kmer/common'], sym='quality byte 33..=126, min_qual 0..=93',
+   oracle='accepted iff phred >= min_qual', bounds='complete domain', timeout=300)
+for rule in ('strict', 'middle', 'none'):
+    ob('C12.win.' + rule, ['C12'], 'split_kmer/qual', 'qual_win_%s_k5_l8' % rule, functions=WINF + [SK + 'valid_qual', SK + 'middle_base_qual'], inst='u64', needs_parts=['split_kmer/common'],
+       sym='read <= 8 symbols over {ACGTNacgtn}, quality string, min_qual 0..=60, strand mode', oracle='strict: windows with no N and every quality >= min; middle/none: all N-free windows and middle-base verdict',
+       bounds='k=5, read length <= 8, rule=' + rule, timeout=1800, mem_gb=12)
